@@ -8,7 +8,7 @@ must be the object registered under its name, and printing / introspection must 
 import json
 import random
 
-from harness import opsreplay, par, tlc
+from harness import dirreplay, opsreplay, par, tlc
 
 
 def gen(chk, ops, simulate=None):
@@ -202,6 +202,127 @@ def run_sequence(beh, style="constructor"):
     return out, seqdesc
 
 
+# ---- schema directives / generic SchemaVisitor plans (spec/GqlSchemaDirectives.tla) --------------------------------------
+def gen_plans(chk, n, simulate=None):
+    cfg = tlc.cfg(spec="Spec", constants={"MaxAnn": n}, invariants=["Emit", "EmitBase", "ResultClosed", "NonTargetsKept"])
+    kw = {}
+    if simulate:
+        kw = {"simulate": simulate, "depth": n + 1, "seed": chk.seed, "cache": False, "workers": 1}
+    r = chk.tlc("GqlSchemaDirectives", cfg, tags=["PLAN", "BASE"], coverage=not simulate,
+                label="GqlSchemaDirectives annotations<=%d%s" % (n, " -simulate" if simulate else ""), heap="8g", **kw)
+    if r.rc != 0:
+        raise tlc.TLCError("GqlSchemaDirectives property violated: %s\n%s" % (r.violated, r.tail))
+    if not simulate:
+        tlc.require_coverage(r, ["Annotate"])
+    base = r.tagged("BASE")
+    seen, out = set(), []
+    for b in r.tagged("PLAN"):
+        k = json.dumps(b["plan"], sort_keys=True)
+        if k not in seen:
+            seen.add(k)
+            out.append(b)
+    return (base[0]["value"] if base else None), out
+
+
+def _plan_key(plan):
+    return "+".join(sorted(set("%s@%s" % (an["e"]["d"], an["site"]["s"]) for an in plan)))
+
+
+def run_plan(base, item, seed):
+    """-> list of (key, witness)"""
+    from py_gql.exc import GraphQLError
+    from py_gql.schema.transforms import transform_schema
+    from py_gql.sdl import apply_schema_directives, build_schema
+    out = []
+    plan, misuse = item["plan"], item["misuse"]
+    pk = _plan_key(plan)
+    exp_full = opsreplay.normalize(item["value"])
+    exp_blank = opsreplay.normalize(dirreplay.blank_resolvers(item["value"]))
+    base_norm = opsreplay.normalize(base)
+    rng = random.Random("%s/%s" % (seed, json.dumps(plan, sort_keys=True)))
+    text = dirreplay.render_sdl(base, plan, rng)
+
+    def judge(binding, schema, exp, role="result"):
+        try:
+            got, ident, _ = opsreplay.project(schema)
+        except Exception as e:
+            out.append(("dir/%s/projection-raises/%s/%s" % (binding, type(e).__name__, pk), {"error": repr(e)[:300]}))
+            return
+        if ident:
+            out.append(("dir/%s/not-closed/%s/%s" % (binding, role, pk), {"stale_references": ident[:6]}))
+        d = opsreplay.first_difference(exp, got)
+        if d:
+            out.append(("dir/%s/%s/%s/%s" % (binding, "result-differs" if role == "result" else "source-modified", pk, opsreplay.generalize(d)), {"difference": d}))
+        if role != "result":
+            return
+        try:
+            vis = visible_names(exp, False)
+            shown = names_from_sdl(schema.to_string())
+            if shown != vis:
+                out.append(("dir/%s/print-shows-wrong-elements/%s" % (binding, pk), {"missing": sorted(vis - shown)[:5], "extra": sorted(shown - vis)[:5]}))
+            shown = names_from_introspection(schema)
+            if shown != vis:
+                out.append(("dir/%s/introspection-shows-wrong-elements/%s" % (binding, pk), {"missing": sorted(vis - shown)[:5], "extra": sorted(shown - vis)[:5]}))
+        except Exception as e:
+            out.append(("dir/%s/observers-raise/%s/%s" % (binding, type(e).__name__, pk), {"error": repr(e)[:300]}))
+
+    # (a) SDL bindings
+    for binding in ("sdl", "apply"):
+        log = []
+        classes = dirreplay.directive_classes(log)
+        try:
+            if binding == "sdl":
+                schema = build_schema(text, schema_directives=classes)
+            else:
+                schema = build_schema(text)
+                dirreplay.attach(schema, base, opsreplay.Ids())
+                schema = apply_schema_directives(schema, classes)
+        except GraphQLError as e:
+            if not misuse:
+                out.append(("dir/%s/rejected/%s/%s" % (binding, type(e).__name__, pk), {"error": repr(e)[:300]}))
+            continue
+        except Exception as e:
+            out.append(("dir/%s/raises/%s/%s" % (binding, type(e).__name__, pk), {"error": repr(e)[:300], "misuse": misuse}))
+            continue
+        if misuse:
+            continue          # a directive written twice at one site: SDLError or not, the property demands nothing further
+        # every written directive was instantiated with its coerced arguments (declared default n = 1)
+        want = sorted((an["e"]["d"], an["e"]["n"] or 1) for an in plan if an["e"]["d"] == "tag")
+        seen_tags = sorted((d, a.get("n")) for d, a in log if d == "tag")
+        if not set(seen_tags) <= set(want):
+            out.append(("dir/%s/directive-arguments/%s" % (binding, pk), {"expected": want, "got": seen_tags}))
+        judge(binding, schema, exp_blank if binding == "sdl" else exp_full)
+    if misuse:
+        return out
+    # (b) the same plan as a SchemaVisitor through transform_schema (clone based)
+    for style in ("constructor", "registered"):
+        try:
+            src = opsreplay.realize(base, opsreplay.Ids(), style)
+            res = transform_schema(src, dirreplay.plan_visitor(plan))
+        except Exception as e:
+            out.append(("dir/visitor/raises/%s/%s" % (type(e).__name__, pk), {"error": repr(e)[:300], "resolvers": style}))
+            continue
+        if res is src:
+            out.append(("dir/visitor/returns-source-object/%s" % pk, {}))
+        judge("visitor", res, exp_full)
+        judge("visitor", src, base_norm, role="source")
+    return out
+
+
+def _plan_worker(args):
+    res = {}
+    n = 0
+    for base, item, seed in args:
+        n += 1
+        try:
+            divs = run_plan(base, item, seed)
+        except Exception as e:
+            divs = [("dir/harness-exception/%s" % type(e).__name__, {"error": repr(e)[:300]})]
+        for k, d in divs:
+            res.setdefault(k, dict(d, plan=[(an["site"], an["e"]) for an in item["plan"]]))
+    return res, n
+
+
 def _worker(behs):
     res = {}
     n = 0
@@ -231,6 +352,22 @@ def run(chk):
         for k, wit in out.items():
             chk.diverge(k, wit, "replay of a GqlSchemaOps sequence diverges (%s)" % k.split("/")[1])
     chk.sample({"sequence": [(s["op"], s["src"], s["arg"]) for s in behs[len(behs) // 2]["hist"]]})
+    # schema directives and generic visitor plans
+    base, plans = gen_plans(chk, 2)
+    chk.count("directive / visitor plans with <= 2 annotations (TLC, exhaustive)", len(plans))
+    if chk.quick:       # quick tier: every single annotation, every plan with a removal of a type, a seeded third of the other pairs
+        plans = [p for p in plans if len(p["plan"]) == 1 or p["misuse"] or any(a["e"]["d"] == "drop" and a["site"]["s"] == "type" for a in p["plan"])
+                 or rng.random() < 0.33]
+    chk.count("directive / visitor plans with <= 2 annotations (replayed)", len(plans))
+    _, more = gen_plans(chk, 4, simulate=25 if chk.quick else 600)
+    more = [p for p in more if len(p["plan"]) > 2]
+    chk.count("directive / visitor plans with 3-4 annotations (simulated)", len(more))
+    plans += more
+    for out, n in par.pmap(_plan_worker, [(base, p, chk.seed) for p in plans]):
+        chk.traces += n
+        for k, wit in out.items():
+            chk.diverge(k, wit, "schema directive / SchemaVisitor plan of GqlSchemaDirectives diverges (%s)" % "/".join(k.split("/")[1:3]))
+    chk.sample({"plan": plans[len(plans) // 2]["plan"]})
     chk.assumptions += ["names are compared as word sequences with one spelling per schema", "resolvers are identified by id strings attached to the callables"]
     return chk.finish(rule="operation sequences on a store of schemas: length 2 exhaustive, 3-4 simulated; every live schema projected after every step")
 
